@@ -74,6 +74,16 @@ pub fn replay(id: &str, v: &serde_json::Value) -> Result<Option<String>, String>
             let c = &v["case"];
             Ok(c05::foreign_hint_case(c["preset"].as_u64().unwrap_or(12) as usize, c["hint"].as_i64().unwrap_or(0), c["how"].as_u64().unwrap_or(0) as u8).err())
         }
+        "C10" if v["kind"].as_str() == Some("media") => {
+            let c = &v["case"];
+            let bits = c["width"].as_u64().unwrap_or(12) as u32;
+            let fat = match bits {
+                12 => fatfs::FatType::Fat12,
+                16 => fatfs::FatType::Fat16,
+                _ => fatfs::FatType::Fat32,
+            };
+            Ok(c10::reserved_entries_case(c["media"].as_u64().unwrap_or(0xF8) as u8, fat, c["sectors"].as_u64().unwrap_or(2000) as u32, bits, c["fats"].as_u64().unwrap_or(2) as u8).err())
+        }
         "C06" => c06::replay(v),
         "C07" => c07::replay(v),
         "C08" => c08::replay(v),
